@@ -5,6 +5,9 @@ import CkbVerif.Lemmas.Inflight
 import CkbVerif.Lemmas.HeaderMap
 import CkbVerif.Lemmas.Orphan3
 import CkbVerif.Lemmas.InflightPolicy
+import CkbVerif.Lemmas.Locate
+import CkbVerif.Lemmas.Analyzer
+import CkbVerif.Model.HeadersSync
 
 /-!
 # C17 — sync bookkeeping structures behave like their simple mathematical models
@@ -857,9 +860,485 @@ example :
     ¬ ({ index := TIME_TRACE_SIZE, trace := List.replicate TIME_TRACE_SIZE 3000 } : Analyzer).index < TIME_TRACE_SIZE :=
   ⟨List.length_replicate, by decide, by decide, Nat.lt_irrefl _⟩
 
+/-! ### The analyzer's averaged values -/
+
+/-- `TimeAnalyzer::push_time`, the averaged values. While the window fills the thresholds do not move.
+On the roll-over each new threshold is the saturating average of the old threshold and an actual
+SAMPLE of the window (its order statistic at FAST / NORMAL / LOW index): it never exceeds the larger of
+the two, and — when the sum does not saturate `u64` — it is not below the smaller of the two. -/
+theorem threshold_update_between (a : Analyzer) (t : Nat) (hl : a.trace.length = TIME_TRACE_SIZE) :
+    (a.index < TIME_TRACE_SIZE →
+      (a.pushTime t).1.fast = a.fast ∧ (a.pushTime t).1.normal = a.normal ∧ (a.pushTime t).1.low = a.low) ∧
+    (¬ a.index < TIME_TRACE_SIZE →
+      ∃ qf, qf ∈ a.trace ∧ ∃ qn, qn ∈ a.trace ∧ ∃ ql, ql ∈ a.trace ∧
+        (a.pushTime t).1.fast ≤ max a.fast qf ∧ (a.fast + qf ≤ U64_MAX → min a.fast qf ≤ (a.pushTime t).1.fast) ∧
+        (a.pushTime t).1.normal ≤ max a.normal qn ∧ (a.normal + qn ≤ U64_MAX → min a.normal qn ≤ (a.pushTime t).1.normal) ∧
+        (a.pushTime t).1.low ≤ max a.low ql ∧ (a.low + ql ≤ U64_MAX → min a.low ql ≤ (a.pushTime t).1.low)) := by
+  refine ⟨(pushTime_thresholds a t).1, ?_⟩
+  intro hroll
+  obtain ⟨h1, h2, h3⟩ := (pushTime_thresholds a t).2 hroll
+  refine ⟨_, sortedWin_getD_mem a.trace FAST_INDEX (by rw [hl]; decide),
+    _, sortedWin_getD_mem a.trace NORMAL_INDEX (by rw [hl]; decide),
+    _, sortedWin_getD_mem a.trace LOW_INDEX (by rw [hl]; decide), ?_⟩
+  rw [h1, h2, h3]
+  exact ⟨satAvg_le_max _ _, satAvg_ge_min, satAvg_le_max _ _, satAvg_ge_min, satAvg_le_max _ _, satAvg_ge_min⟩
+
+/-- … the lower bound does need the no-saturation condition: with both the threshold and the sample at
+`u64::MAX` the saturating sum halves to `u64::MAX / 2`, below both. -/
+theorem threshold_average_saturates : satAdd64 U64_MAX U64_MAX / 2 < min U64_MAX U64_MAX := by decide
+
+/-- Analyzers reachable by any sequence of `push_time` with samples at most `hi`. -/
+inductive AReach (hi : Nat) : Analyzer → Prop
+  | init : AReach hi {}
+  | push (a : Analyzer) (t : Nat) : AReach hi a → t ≤ hi → AReach hi (a.pushTime t).1
+
+/-- For every sequence of samples: no threshold ever exceeds the largest sample seen (or the initial
+`low_time` of 1500 ms, whichever is larger), and every window entry is a sample (or the initial 0). -/
+theorem thresholds_bounded_by_samples {hi : Nat} (h1500 : 1500 ≤ hi) {a : Analyzer} (h : AReach hi a) :
+    a.trace.length = TIME_TRACE_SIZE ∧ (∀ x ∈ a.trace, x ≤ hi) ∧
+      a.fast ≤ hi ∧ a.normal ≤ hi ∧ a.low ≤ hi := by
+  induction h with
+  | init =>
+    refine ⟨by simp, ?_, ?_, ?_, ?_⟩
+    · intro x hx
+      have : x = 0 := List.eq_of_mem_replicate hx
+      omega
+    · show 1000 ≤ hi; omega
+    · show 1250 ≤ hi; omega
+    · show 1500 ≤ hi; omega
+  | push a t _ ht ih =>
+    obtain ⟨hl, hw, hf, hn, hlo⟩ := ih
+    by_cases hidx : a.index < TIME_TRACE_SIZE
+    · obtain ⟨e1, e2, e3⟩ := (pushTime_thresholds a t).1 hidx
+      rw [e1, e2, e3]
+      have htr : (a.pushTime t).1.trace = a.trace.set a.index t := by simp [Analyzer.pushTime, hidx]
+      refine ⟨by rw [htr, List.length_set]; exact hl, ?_, hf, hn, hlo⟩
+      intro x hx
+      rw [htr] at hx
+      rcases List.mem_or_eq_of_mem_set hx with h | h
+      · exact hw x h
+      · omega
+    · obtain ⟨qf, hqf, qn, hqn, ql, hql, b1, _, b2, _, b3, _⟩ := (threshold_update_between a t hl).2 hidx
+      have htr : (a.pushTime t).1.trace = (sortedWin a.trace).set 0 t := by
+        simp [Analyzer.pushTime, hidx, sortedWin]
+      have := hw qf hqf; have := hw qn hqn; have := hw ql hql
+      refine ⟨by rw [htr, List.length_set, sortedWin_length]; exact hl, ?_, by omega, by omega, by omega⟩
+      intro x hx
+      rw [htr] at hx
+      rcases List.mem_or_eq_of_mem_set hx with h | h
+      · exact hw x ((sortedWin_perm a.trace).mem_iff.mp h)
+      · omega
+
+/-- The thresholds are monotone in the samples: of two analyzers at the same window position, the one
+whose window entries (pointwise) and thresholds are at least the other's has, after the next
+`push_time` (any samples), thresholds at least the other's — in particular the order statistics of the
+sorted window are monotone in every single sample. -/
+theorem threshold_update_monotone (a a' : Analyzer) (t t' : Nat) (hidx : a.index = a'.index)
+    (hl : a.trace.length = TIME_TRACE_SIZE) (hw : PointwiseLe a.trace a'.trace)
+    (hf : a.fast ≤ a'.fast) (hn : a.normal ≤ a'.normal) (hlo : a.low ≤ a'.low) :
+    (a.pushTime t).1.fast ≤ (a'.pushTime t').1.fast ∧ (a.pushTime t).1.normal ≤ (a'.pushTime t').1.normal ∧
+      (a.pushTime t).1.low ≤ (a'.pushTime t').1.low := by
+  by_cases h : a.index < TIME_TRACE_SIZE
+  · obtain ⟨e1, e2, e3⟩ := (pushTime_thresholds a t).1 h
+    obtain ⟨f1, f2, f3⟩ := (pushTime_thresholds a' t').1 (by rw [← hidx]; exact h)
+    rw [e1, e2, e3, f1, f2, f3]; exact ⟨hf, hn, hlo⟩
+  · obtain ⟨e1, e2, e3⟩ := (pushTime_thresholds a t).2 h
+    obtain ⟨f1, f2, f3⟩ := (pushTime_thresholds a' t').2 (by rw [← hidx]; exact h)
+    rw [e1, e2, e3, f1, f2, f3]
+    exact ⟨satAvg_mono hf (sortedWin_getD_mono hw _ (by rw [hl]; decide)),
+      satAvg_mono hn (sortedWin_getD_mono hw _ (by rw [hl]; decide)),
+      satAvg_mono hlo (sortedWin_getD_mono hw _ (by rw [hl]; decide))⟩
+
+/-- non-vacuity: a full window of 100 ms samples moves `fast_time` from 1000 to 550 — between the sample
+and the old value (`mergeSort` does not reduce in the kernel: the value is derived through the
+theorems); and the bounded reachable set is inhabited beyond the initial analyzer. -/
+def exFull : Analyzer := { trace := List.replicate TIME_TRACE_SIZE 100, index := TIME_TRACE_SIZE }
+example : (exFull.pushTime 7).1.fast = 550 := by
+  obtain ⟨h1, _, _⟩ := (pushTime_thresholds exFull 7).2 (Nat.lt_irrefl _)
+  have hm : (sortedWin exFull.trace).getD FAST_INDEX 0 ∈ List.replicate TIME_TRACE_SIZE 100 :=
+    sortedWin_getD_mem exFull.trace FAST_INDEX (by show FAST_INDEX < (List.replicate TIME_TRACE_SIZE 100).length; rw [List.length_replicate]; decide)
+  have e : (sortedWin exFull.trace).getD FAST_INDEX 0 = 100 := List.eq_of_mem_replicate hm
+  rw [h1, e]
+  decide
+example : AReach 2000 (({} : Analyzer).pushTime 1700).1 := .push _ _ .init (by decide)
+
 end Inflight
 
 /-! ## 4. Header map -/
+
+/-! ## Common blocks: `last_common_ancestor`, `update_last_common_header`, `locate_latest_common_block` -/
+section Locate
+open CkbVerif.Skip
+
+/-- every header of the store descends from the one genesis header `g` -/
+def Rooted (store : Store) (g : Hdr) : Prop :=
+  ∀ h, store h.id = some h → walk store h.number h = some g
+
+/-- `ActiveChain::last_common_ancestor` (swap, ancestor lookup through skip pointers and the main-chain
+shortcut, then the two-sided parent loop) returns THE latest common ancestor of any two known
+headers of one tree: an ancestor of both, and no common ancestor is higher. It never fails. -/
+theorem last_common_ancestor_is_lca {store : Store} (ok : StoreOk store)
+    {scan : Nat → Hdr → Option Hdr} (sok : ScanOk store scan) {g : Hdr} (hroot : Rooted store g)
+    {a b : Hdr} (ha : store a.id = some a) (hb : store b.id = some b) :
+    ∃ c, lastCommonAncestor (ancNH store scan) (nhOf a) (nhOf b) = some (nhOf c) ∧
+      IsAnc store c a ∧ IsAnc store c b ∧
+      ∀ c', IsAnc store c' a → IsAnc store c' b → c'.number ≤ c.number := by
+  have hr : ∀ x y : Hdr, store x.id = some x → store y.id = some y →
+      walk store x.number x = walk store y.number y := by
+    intro x y hx hy; rw [hroot _ hx, hroot _ hy]
+  by_cases hgt : a.number > b.number
+  · obtain ⟨c, hc, hcl, hcr, hmax⟩ := lca_core ok sok hb ha (by omega) (hr _ _ hb ha)
+    refine ⟨c, ?_, hcr, hcl, ?_⟩
+    · have h1 : (nhOf a).1 > (nhOf b).1 := hgt
+      simp only [lastCommonAncestor, if_pos h1]
+      exact hc
+    · intro c' ha' hb'
+      apply Nat.le_of_not_lt
+      intro hlt
+      apply hmax c'.number hlt hb'.1
+      rw [ha'.2, hb'.2]
+  · obtain ⟨c, hc, hcl, hcr, hmax⟩ := lca_core ok sok ha hb (by omega) (hr _ _ ha hb)
+    refine ⟨c, ?_, hcl, hcr, ?_⟩
+    · have h1 : ¬ (nhOf a).1 > (nhOf b).1 := hgt
+      simp only [lastCommonAncestor, if_neg h1]
+      exact hc
+    · intro c' ha' hb'
+      apply Nat.le_of_not_lt
+      intro hlt
+      apply hmax c'.number hlt ha'.1
+      rw [ha'.2, hb'.2]
+
+/-- `BlockFetcher::update_last_common_header`: whatever the peer's previous last common header `x` was
+(any known header: on our chain, on a branch we left, on a branch the peer left), the value written is
+the latest common ancestor of `x` and the peer's best known header — in particular an ancestor of
+BOTH; and with no previous value it is the latest common ancestor of our main-chain block at
+`min(tip, best.number)` and the best known header. The function fails only when that main-chain
+block does not exist. -/
+theorem update_last_common_header_spec {store : Store} (ok : StoreOk store)
+    {scan : Nat → Hdr → Option Hdr} (sok : ScanOk store scan) {g : Hdr} (hroot : Rooted store g)
+    (mainHash : Nat → Option Nat) (tip : Nat) {b : Hdr} (hb : store b.id = some b) :
+    (∀ x : Hdr, store x.id = some x →
+      ∃ c, updateLastCommonValue (ancNH store scan) mainHash tip (some (nhOf x)) (nhOf b) = some (nhOf c) ∧
+        IsAnc store c x ∧ IsAnc store c b ∧
+        ∀ c', IsAnc store c' x → IsAnc store c' b → c'.number ≤ c.number) ∧
+    (∀ m : Hdr, store m.id = some m → m.number = min tip b.number → mainHash m.number = some m.id →
+      ∃ c, updateLastCommonValue (ancNH store scan) mainHash tip none (nhOf b) = some (nhOf c) ∧
+        IsAnc store c m ∧ IsAnc store c b ∧
+        ∀ c', IsAnc store c' m → IsAnc store c' b → c'.number ≤ c.number) := by
+  constructor
+  · intro x hx
+    obtain ⟨c, hc, h1, h2, h3⟩ := last_common_ancestor_is_lca ok sok hroot hx hb
+    exact ⟨c, by simpa [updateLastCommonValue] using hc, h1, h2, h3⟩
+  · intro m hm hmn hmh
+    obtain ⟨c, hc, h1, h2, h3⟩ := last_common_ancestor_is_lca ok sok hroot hm hb
+    refine ⟨c, ?_, h1, h2, h3⟩
+    have e : min tip (nhOf b).1 = m.number := hmn.symm
+    simp only [updateLastCommonValue, e, hmh, Option.map_some, Option.bind_some]
+    exact hc
+
+/-- … so the peer's `last_common_header` stays on any ancestor-closed set of headers it was on (our main
+chain, the stored blocks, the peer's own chain): it is always an ancestor of both chains. -/
+theorem last_common_header_stays_on {store : Store} (P : Hdr → Prop)
+    (hP : ∀ h p : Hdr, P h → store h.parent = some p → P p) {c x : Hdr}
+    (hc : IsAnc store c x) (hx : P x) : P c := by
+  have key : ∀ k (y t : Hdr), P y → walk store k y = some t → P t := by
+    intro k
+    induction k with
+    | zero => intro y t hy hw; simp [walk] at hw; subst hw; exact hy
+    | succ k ih =>
+      intro y t hy hw
+      simp only [walk] at hw
+      cases hp : store y.parent with
+      | none => rw [hp] at hw; cases hw
+      | some p => rw [hp] at hw; exact ih p t (hP y p hy hp) hw
+  exact key _ x c hx hc.2
+
+/-- `Peers::may_set_best_known_header`: the total difficulty of a peer's best known header never goes
+down, and a peer without state gets none. -/
+theorem best_known_td_monotone (ps : PeersSt) (p : Nat) (hi : HIdx) :
+    (ps.get p = none → (ps.maySetBestKnown p hi).get p = none) ∧
+    ∀ st, ps.get p = some st →
+      ∃ st', (ps.maySetBestKnown p hi).get p = some st' ∧ st'.lastCommon = st.lastCommon ∧
+        ∃ bh, st'.best = some bh ∧ hi.td ≤ bh.td ∧ (∀ k, st.best = some k → k.td ≤ bh.td) ∧
+          (bh = hi ∨ st.best = some bh) := by
+  have get_cons : ∀ (e : Nat × PeerHdrs) (t : PeersSt),
+      PeersSt.get (e :: t) p = if (e.1 == p) = true then some e.2 else PeersSt.get t p := by
+    intro e t
+    by_cases he : (e.1 == p) = true
+    · simp [PeersSt.get, he]
+    · simp [PeersSt.get, he]
+  have hget : ∀ (l : PeersSt) (f : PeerHdrs → PeerHdrs),
+      (PeersSt.modify l p f).get p = (l.get p).map f := by
+    intro l f
+    induction l with
+    | nil => rfl
+    | cons e t ih =>
+      have hm : PeersSt.modify (e :: t) p f =
+          (if (e.1 == p) = true then (e.1, f e.2) else e) :: PeersSt.modify t p f := rfl
+      rw [hm, get_cons, get_cons]
+      by_cases he : (e.1 == p) = true
+      · simp [he]
+      · simp [he, ih]
+  constructor
+  · intro h
+    simp [PeersSt.maySetBestKnown, hget, h]
+  · intro st hst
+    simp only [PeersSt.maySetBestKnown, hget, hst, Option.map_some]
+    cases hb : st.best with
+    | none =>
+      refine ⟨_, rfl, rfl, hi, rfl, Nat.le_refl _, ?_, Or.inl rfl⟩
+      intro k hk; cases hk
+    | some known =>
+      by_cases hgt : hi.td > known.td
+      · simp only [if_pos hgt]
+        refine ⟨_, rfl, rfl, hi, rfl, Nat.le_refl _, ?_, Or.inl rfl⟩
+        intro k hk; cases hk; omega
+      · simp only [if_neg hgt]
+        refine ⟨_, rfl, rfl, known, hb, by omega, ?_, Or.inr rfl⟩
+        intro k hk; cases hk; omega
+
+/-- what the theorems below assume about the node's view `numOnMain` / `blk` over the header tree -/
+structure ViewOk (store : Store) (g : Hdr) (numOnMain : Nat → Option Nat) (blk : Nat → Option Hdr) : Prop where
+  rooted : Rooted store g
+  /-- the genesis block is on the main chain and its parent hash is no header -/
+  gen_main : numOnMain g.id = some 0
+  gen_parent : store g.parent = none
+  /-- stored block headers are known headers -/
+  blk_sub : ∀ id h, blk id = some h → store id = some h
+
+/-- the loop of `locate_latest_common_block` from the parent of a known header `x`: it answers either
+the fall-back `latest`, or the number of a main-chain block that is an ancestor of `x`. -/
+theorem locateWalk_sound {store : Store} (ok : StoreOk store) {g : Hdr} {numOnMain : Nat → Option Nat}
+    {blk : Nat → Option Hdr} (v : ViewOk store g numOnMain blk) (latest : Nat) (fuel : Nat) :
+    ∀ x : Hdr, store x.id = some x →
+      locateWalk numOnMain blk latest fuel x.parent = latest ∨
+      ∃ t, numOnMain t.id = some (locateWalk numOnMain blk latest fuel x.parent) ∧ IsAnc store t x := by
+  induction fuel with
+  | zero => intro x _; left; rfl
+  | succ f ih =>
+    intro x hx
+    unfold locateWalk
+    cases hb : blk x.parent with
+    | none => left; rfl
+    | some hd =>
+      have hs := v.blk_sub _ _ hb
+      have hpos : 0 < x.number := by
+        apply Nat.pos_of_ne_zero
+        intro h0
+        have hw := v.rooted x hx
+        rw [h0] at hw
+        simp [walk] at hw
+        subst hw
+        rw [v.gen_parent] at hs
+        cases hs
+      obtain ⟨p, hp1, hpn, hps, _⟩ := walk_one ok hx hpos
+      have hpd : p = hd := by
+        simp only [walk, Option.bind_eq_some_iff] at hp1
+        obtain ⟨q, hq, hq2⟩ := hp1
+        rw [hs] at hq
+        cases hq
+        simpa using hq2.symm
+      subst hpd
+      have hid : p.id = x.parent := ok.id_ok _ _ hs
+      have hanc : IsAnc store p x := ⟨by omega, by
+        have : x.number - p.number = 1 := by omega
+        rw [this]; exact hp1⟩
+      cases hm : numOnMain x.parent with
+      | some n =>
+        right
+        exact ⟨p, by rw [hid]; exact hm, hanc⟩
+      | none =>
+        simp only
+        rcases ih p hps with h | ⟨t, ht, hta⟩
+        · left; exact h
+        · right; exact ⟨t, ht, isAnc_trans hta hanc⟩
+
+/-- `locate_latest_common_block` on a locator all of whose entries are ancestors of the sender's start
+header `h` (what `locator_eq_walk` shows of `get_locator`) and that ends in genesis: the answer exists
+and is the number of a COMMON block — on our main chain and an ancestor of `h`. -/
+theorem locate_latest_common_block_common {store : Store} (ok : StoreOk store) {g : Hdr}
+    {numOnMain : Nat → Option Nat} {blk : Nat → Option Hdr} (v : ViewOk store g numOnMain blk)
+    {h : Hdr} (L : List Nat)
+    (hL : ∀ e ∈ L, ∃ he, store e = some he ∧ IsAnc store he h)
+    (hlast : L.getLast? = some g.id) :
+    ∃ n c, locateLatestCommonBlock numOnMain blk g.id L = some n ∧
+      numOnMain c.id = some n ∧ IsAnc store c h := by
+  have hgmem : g.id ∈ L := List.mem_of_getLast? hlast
+  obtain ⟨⟨index, n0⟩, hf⟩ := firstOnMain_some numOnMain L 0 g.id 0 hgmem v.gen_main
+  obtain ⟨_, e, he, hen, _⟩ := firstOnMain_spec numOnMain L 0 index n0 hf
+  obtain ⟨hde, hdes, hdea⟩ := hL e (List.mem_of_getElem? he)
+  have hide : hde.id = e := ok.id_ok _ _ hdes
+  have base : numOnMain hde.id = some n0 := by rw [hide]; exact hen
+  simp only [locateLatestCommonBlock, hlast, bne_self_eq_false, Bool.false_eq_true, if_false, hf]
+  split
+  · exact ⟨n0, hde, rfl, base, hdea⟩
+  · split
+    · rename_i header hh
+      obtain ⟨x, hx, hxb⟩ := Option.bind_eq_some_iff.mp hh
+      obtain ⟨hdx, hdxs, hdxa⟩ := hL x (List.mem_of_getElem? hx)
+      have hxs := v.blk_sub _ _ hxb
+      rw [hdxs] at hxs
+      have hEq : hdx = header := Option.some.inj hxs
+      subst hEq
+      have hidx : hdx.id = x := ok.id_ok _ _ hdxs
+      rcases locateWalk_sound ok v n0 (hdx.number + 1) hdx (by rw [hidx]; exact hdxs) with h1 | ⟨t, ht, hta⟩
+      · exact ⟨_, hde, rfl, by rw [h1]; exact base, hdea⟩
+      · exact ⟨_, t, rfl, ht, isAnc_trans hta hdxa⟩
+    · exact ⟨n0, hde, rfl, base, hdea⟩
+
+/-- the loop of `locate_latest_common_block` when the sender's branch is known to us (every ancestor of
+its start `h` is a stored block): from a branch block `x` that is not on the main chain it answers the
+number of the HIGHEST main-chain ancestor of `x` — the fuel of the model never being the reason to stop. -/
+theorem locateWalk_exact {store : Store} (ok : StoreOk store) {g : Hdr} {numOnMain : Nat → Option Nat}
+    {blk : Nat → Option Hdr} (v : ViewOk store g numOnMain blk) {h : Hdr}
+    (hstored : ∀ x, IsAnc store x h → blk x.id = some x)
+    (hnum : ∀ x n, store x.id = some x → numOnMain x.id = some n → n = x.number)
+    (latest : Nat) (fuel : Nat) :
+    ∀ x : Hdr, store x.id = some x → IsAnc store x h → numOnMain x.id = none → x.number ≤ fuel →
+      ∃ t, IsAnc store t x ∧ numOnMain t.id = some (locateWalk numOnMain blk latest fuel x.parent) ∧
+        ∀ c', IsAnc store c' x → numOnMain c'.id ≠ none → c'.number ≤ t.number := by
+  have notgen : ∀ x : Hdr, store x.id = some x → numOnMain x.id = none → 0 < x.number := by
+    intro x hx hn
+    apply Nat.pos_of_ne_zero
+    intro h0
+    have hw := v.rooted x hx
+    rw [h0] at hw
+    simp [walk] at hw
+    subst hw
+    rw [v.gen_main] at hn
+    cases hn
+  induction fuel with
+  | zero =>
+    intro x hx _ hn hle
+    have := notgen x hx hn
+    omega
+  | succ f ih =>
+    intro x hx hxa hn hle
+    have hpos := notgen x hx hn
+    obtain ⟨p, hp1, hpn, hps, _⟩ := walk_one ok hx hpos
+    have hanc : IsAnc store p x := ⟨by omega, by
+      have : x.number - p.number = 1 := by omega
+      rw [this]; exact hp1⟩
+    have hpid : p.id = x.parent := by
+      simp only [walk, Option.bind_eq_some_iff] at hp1
+      obtain ⟨q, hq, hq2⟩ := hp1
+      have hqp : q = p := by simpa using hq2
+      subst hqp
+      exact ok.id_ok _ _ hq
+    have hpb : blk x.parent = some p := by
+      rw [← hpid]; exact hstored p (isAnc_trans hanc hxa)
+    have below : ∀ c', IsAnc store c' x → numOnMain c'.id ≠ none → c'.number ≤ p.number := by
+      intro c' hc' hm
+      have h1 := hc'.1
+      by_cases he : c'.number = x.number
+      · have : c' = x := isAnc_unique hc' (isAnc_refl _ _) he
+        subst this
+        exact absurd hn hm
+      · omega
+    unfold locateWalk
+    rw [hpb]
+    cases hm : numOnMain x.parent with
+    | some n =>
+      have hnp : n = p.number := hnum p n hps (by rw [hpid]; exact hm)
+      refine ⟨p, hanc, by rw [hpid]; exact hm, below⟩
+    | none =>
+      simp only
+      obtain ⟨t, hta, htn, htmax⟩ := ih p hps (isAnc_trans hanc hxa) (by rw [hpid]; exact hm) (by omega)
+      refine ⟨t, isAnc_trans hta hanc, htn, ?_⟩
+      intro c' hc' hmc
+      exact htmax c' (isAnc_of_le hc' hanc (below c' hc' hmc)) hmc
+
+/-- Round trip `get_locator` → `locate_latest_common_block`, exactness: for a locator of start header `h`
+(first entry `h`, every entry an ancestor of `h`, last entry genesis) received by a node that knows
+`h`'s branch (its blocks are stored) and whose main chain is closed under parents, the answer is the
+number of the TRUE latest common block — the highest main-chain ancestor of `h` — whenever the first
+locator entry on the main chain is `h` itself or is not genesis (when it is genesis the code answers 0
+without looking further: the resolution limit of the locator, see the negative example below). -/
+theorem locate_latest_common_block_exact {store : Store} (ok : StoreOk store) {g : Hdr}
+    {numOnMain : Nat → Option Nat} {blk : Nat → Option Hdr} (v : ViewOk store g numOnMain blk)
+    {h : Hdr} (hs : store h.id = some h)
+    (hstored : ∀ x, IsAnc store x h → blk x.id = some x)
+    (hnum : ∀ x n, store x.id = some x → numOnMain x.id = some n → n = x.number)
+    (hclosed : ∀ x c, store x.id = some x → numOnMain x.id ≠ none → IsAnc store c x → numOnMain c.id ≠ none)
+    (L : List Nat) (hL : ∀ e ∈ L, ∃ he, store e = some he ∧ IsAnc store he h)
+    (hhead : L[0]? = some h.id) (hlast : L.getLast? = some g.id)
+    {index n0 : Nat} (hf : firstOnMain numOnMain L 0 = some (index, n0)) (hres : index = 0 ∨ n0 ≠ 0) :
+    ∃ n c, locateLatestCommonBlock numOnMain blk g.id L = some n ∧
+      numOnMain c.id = some n ∧ IsAnc store c h ∧
+      ∀ c', IsAnc store c' h → numOnMain c'.id ≠ none → c'.number ≤ n := by
+  obtain ⟨_, e, he, hen, hbefore⟩ := firstOnMain_spec numOnMain L 0 index n0 hf
+  simp only [Nat.sub_zero] at he hbefore
+  simp only [locateLatestCommonBlock, hlast, bne_self_eq_false, Bool.false_eq_true, if_false, hf]
+  by_cases hi0 : index = 0
+  · subst hi0
+    rw [hhead] at he
+    have hee : h.id = e := Option.some.inj he
+    have hn0 : n0 = h.number := hnum h n0 hs (by rw [hee]; exact hen)
+    simp only [BEq.rfl, Bool.true_or, if_true]
+    refine ⟨n0, h, rfl, by rw [hee]; exact hen, isAnc_refl _ _, ?_⟩
+    intro c' hc' _
+    rw [hn0]; exact hc'.1
+  · have hn0 : n0 ≠ 0 := by rcases hres with h | h; exact absurd h hi0; exact h
+    have hcond : (index == 0 || n0 == 0) = false := by simp [hi0, hn0]
+    simp only [hcond, Bool.false_eq_true, if_false]
+    have hlen : index < L.length := by
+      rcases Nat.lt_or_ge index L.length with h | h
+      · exact h
+      · rw [List.getElem?_eq_none h] at he; cases he
+    have hx : L[index - 1]? = some (L[index - 1]'(by omega)) := List.getElem?_eq_getElem (by omega)
+    obtain ⟨hdx, hdxs, hdxa⟩ := hL _ (List.mem_of_getElem? hx)
+    have hidx : hdx.id = L[index - 1]'(by omega) := ok.id_ok _ _ hdxs
+    have hxm : numOnMain hdx.id = none := by
+      rw [hidx]; exact hbefore (index - 1) (by omega) _ hx
+    have hxb : blk (L[index - 1]'(by omega)) = some hdx := by
+      rw [← hidx]; exact hstored hdx hdxa
+    have hdxs' : store hdx.id = some hdx := by rw [hidx]; exact hdxs
+    rw [hx]
+    simp only [Option.bind_some, hxb]
+    obtain ⟨t, hta, htn, htmax⟩ :=
+      locateWalk_exact ok v hstored hnum n0 (hdx.number + 1) hdx hdxs' hdxa hxm (by omega)
+    have hth : IsAnc store t h := isAnc_trans hta hdxa
+    have hts : store t.id = some t := isAnc_stored ok hs hth
+    have hnt := hnum t _ hts htn
+    refine ⟨_, t, rfl, htn, hth, ?_⟩
+    intro c' hc' hmc
+    rw [hnt]
+    by_cases hge : hdx.number ≤ c'.number
+    · have : IsAnc store hdx c' := isAnc_of_le hdxa hc' hge
+      exact absurd hxm (hclosed c' hdx (isAnc_stored ok hs hc') hmc this)
+    · exact htmax c' (isAnc_of_le hc' hdxa (by omega)) hmc
+
+/-- non-vacuity, on `exStore` (main chain 0..20, stored fork 21,22,23 = numbers 11',12',13' off block 10):
+the latest common ancestor of the fork tip and the main tip is block 10, from either side; the fork tip's
+locator is located at 10 by a node whose main chain is 0..20; and the resolution limit: a main chain of
+100 blocks with a stored fork off block 1 — the locator of the fork's header 99' has genesis as its first
+main-chain entry and the code answers 0, not 1. -/
+def exNumOnMain : Nat → Option Nat := fun i => if i ≤ 20 then some i else none
+
+example : lastCommonAncestor (ancNH exStore (fun _ _ => none)) (13, 23) (20, 20) = some (10, 10) ∧
+    lastCommonAncestor (ancNH exStore (fun _ _ => none)) (20, 20) (13, 23) = some (10, 10) ∧
+    lastCommonAncestor (ancNH exStore (fun _ _ => none)) (12, 22) (12, 12) = some (10, 10) ∧
+    lastCommonAncestor (ancNH exStore (fun _ _ => none)) (7, 7) (13, 23) = some (7, 7) := by decide
+example : updateLastCommonValue (ancNH exStore (fun _ _ => none)) (fun n => if n ≤ 20 then some n else none) 20
+      none (13, 23) = some (10, 10) ∧
+    updateLastCommonValue (ancNH exStore (fun _ _ => none)) (fun n => if n ≤ 20 then some n else none) 20
+      (some (15, 15)) (13, 23) = some (10, 10) := by decide
+example : locateLatestCommonBlock exNumOnMain exStore 0 [23, 22, 21, 10, 9, 8, 7, 6, 5, 4, 2, 0] = some 10 ∧
+    locateLatestCommonBlock exNumOnMain exStore 0 [23, 21, 9, 0] = some 10 ∧
+    locateLatestCommonBlock exNumOnMain (fun i => if i ≤ 20 then exStore i else none) 0 [23, 21, 9, 0] = some 9 ∧
+    locateLatestCommonBlock exNumOnMain exStore 0 [23, 22] = none ∧
+    locateLatestCommonBlock exNumOnMain exStore 0 [] = none := by decide
+/-- ids 0..100 main chain; 101.. = fork headers 2',3',… off block 1 (id 100 + k = number k + 1) -/
+def exFar : Store := fun i =>
+  if i ≤ 100 then some ⟨i, i, i - 1, none⟩
+  else if i ≤ 198 then some ⟨i, i - 99, if i = 101 then 1 else i - 1, none⟩ else none
+example : locateLatestCommonBlock (fun i => if i ≤ 100 then some i else none) exFar 0
+    [198, 197, 196, 195, 194, 193, 192, 191, 190, 189, 187, 183, 175, 159, 127, 0] = some 0 ∧
+    locateLatestCommonBlock (fun i => if i ≤ 100 then some i else none) exFar 0
+    [198, 197, 196, 195, 194, 193, 192, 191, 190, 189, 187, 183, 175, 159, 127, 1, 0] = some 1 := by decide
+
+end Locate
+
 section HeaderMap
 open CkbVerif.HeaderMap
 
@@ -892,5 +1371,108 @@ example : run { limit := 1 }
      .val (some 30)] := by decide
 
 end HeaderMap
+
+/-! ## Headers-sync timeout controller -/
+section HeadersSync
+open CkbVerif.HeadersSync CkbVerif.Gen.Sync
+
+/-- `is_timeout` answers "evict" exactly in two situations, both of which need a full inspect window
+since the last accepted sample and a tip that is at least one inspect window behind the clock: the
+instantaneous speed is below a quarter of the expected one, or it is at most the expected one AND the
+average since the start is below the expected one. -/
+theorem is_timeout_true_iff (c : Ctl) (nowTipTs now : Nat) :
+    (isTimeout c nowTipTs now).2 = some true ↔
+      (c.closeToEnd = false ∧ HEADERS_DOWNLOAD_INSPECT_WINDOW ≤ now - nowTipTs ∧
+        HEADERS_DOWNLOAD_INSPECT_WINDOW ≤ now - c.lastUpdatedTs ∧
+        (nowTipTs - c.lastUpdatedTipTs <
+            expected (now - c.lastUpdatedTs) / HEADERS_DOWNLOAD_TOLERABLE_BIAS_FOR_SINGLE_SAMPLE ∨
+          (nowTipTs - c.lastUpdatedTipTs ≤ expected (now - c.lastUpdatedTs) ∧
+            nowTipTs - c.startedTipTs < expected (now - c.startedTs)))) := by
+  unfold isTimeout
+  cases hc : c.closeToEnd
+  · simp only [Bool.false_eq_true, if_false]
+    split
+    · simp; omega
+    · split
+      · simp; omega
+      · split
+        · simp; omega
+        · split
+          · simp; omega
+          · split
+            · simp; omega
+            · simp; omega
+  · simp only [if_true]
+    split <;> simp
+
+/-- `None` (send GetHeaders again) is answered exactly when the controller thought it was close to the end
+but the tip is more than `expected(inspect window)` behind the clock; the controller is then reset as if
+the sync started now. -/
+theorem is_timeout_none_iff (c : Ctl) (nowTipTs now : Nat) :
+    ((isTimeout c nowTipTs now).2 = none ↔
+      (c.closeToEnd = true ∧ expected HEADERS_DOWNLOAD_INSPECT_WINDOW < now - nowTipTs)) ∧
+    ((isTimeout c nowTipTs now).2 = none → (isTimeout c nowTipTs now).1 = fromHeader now nowTipTs) := by
+  unfold isTimeout fromHeader
+  simp only []
+  constructor
+  · repeat' split
+    all_goals simp_all
+  · repeat' split
+    all_goals simp_all
+
+/-- A peer is never evicted on a sample shorter than the inspect window, nor while its tip is within one
+inspect window of the clock, nor once the controller is close to the end. -/
+theorem no_timeout_inside_window (c : Ctl) (nowTipTs now : Nat)
+    (h : now - c.lastUpdatedTs < HEADERS_DOWNLOAD_INSPECT_WINDOW ∨
+         now - nowTipTs < HEADERS_DOWNLOAD_INSPECT_WINDOW ∨ c.closeToEnd = true) :
+    (isTimeout c nowTipTs now).2 ≠ some true := by
+  intro ht
+  have := (is_timeout_true_iff c nowTipTs now).mp ht
+  rcases h with h | h | h
+  · omega
+  · omega
+  · rw [h] at this; exact Bool.noConfusion this.1
+
+/-- A peer whose tip timestamp advanced by more than the expected amount since the last accepted sample is
+never evicted, and the sample is accepted (the last-updated pair moves to now). -/
+theorem fast_peer_not_evicted (c : Ctl) (nowTipTs now : Nat)
+    (hfast : expected (now - c.lastUpdatedTs) < nowTipTs - c.lastUpdatedTipTs) :
+    (isTimeout c nowTipTs now).2 ≠ some true := by
+  intro ht
+  have := (is_timeout_true_iff c nowTipTs now).mp ht
+  have hb : expected (now - c.lastUpdatedTs) / HEADERS_DOWNLOAD_TOLERABLE_BIAS_FOR_SINGLE_SAMPLE ≤
+      expected (now - c.lastUpdatedTs) := Nat.div_le_self _ _
+  omega
+
+/-- the controller's bookkeeping invariant: the start is not after the last update, neither in clock nor
+in tip time -/
+def CtlOk (c : Ctl) : Prop :=
+  c.startedTs ≤ c.lastUpdatedTs ∧ c.startedTipTs ≤ c.lastUpdatedTipTs
+
+/-- controllers reachable from `from_header` by any sequence of `is_timeout` calls whose clock readings
+and tip timestamps do not go back behind the last accepted sample -/
+inductive HReach : Ctl → Prop
+  | start (now tipTs : Nat) : HReach (fromHeader now tipTs)
+  | call (c : Ctl) (nowTipTs now : Nat) : HReach c → c.lastUpdatedTs ≤ now → c.lastUpdatedTipTs ≤ nowTipTs →
+      HReach (isTimeout c nowTipTs now).1
+
+theorem headers_sync_bookkeeping {c : Ctl} (h : HReach c) : CtlOk c := by
+  induction h with
+  | start now tipTs => exact ⟨Nat.le_refl _, Nat.le_refl _⟩
+  | call c nowTipTs now _ h1 h2 ih =>
+    obtain ⟨i1, i2⟩ := ih
+    unfold isTimeout CtlOk
+    simp only []
+    repeat' split
+    all_goals (simp only []; omega)
+
+example : (isTimeout (fromHeader 1000000 0) 100000 1120000).2 = some true ∧
+    (isTimeout (fromHeader 1000000 0) 2000000 1120000).2 = some false ∧
+    (isTimeout (fromHeader 1000000 0) 1100000 1119999).2 = some false ∧
+    (isTimeout { (fromHeader 1000000 0) with closeToEnd := true } 0 3000000).2 = none := by decide
+example : HReach (isTimeout (fromHeader 1000000 0) 2000000 1120000).1 :=
+  .call _ _ _ (.start _ _) (by decide) (by decide)
+
+end HeadersSync
 
 end CkbVerif.C17
